@@ -847,7 +847,7 @@ impl StreamsState {
             }
 //@ end
 //@ extract quinn-proto/src/connection/streams/state.rs :: impl StreamsState::fn zero_rtt_rejected
-//@ props C05
+//@ props C05 C17
 //@ replace Dir::iter() => dir_iter()
 //@ contract
         requires
@@ -888,7 +888,7 @@ impl StreamsState {
                 }
 //@ end
 //@ extract quinn-proto/src/connection/streams/state.rs :: impl StreamsState::fn retransmit_all_for_0rtt
-//@ props C01
+//@ props C01 C17
 //@ replace self.send.get_mut(&id).and_then(|s| s.as_mut()) => send_get(&mut self.send, id)
 //@ replace Dir::iter() => dir_iter()
 //@ loop-iter 0 od
@@ -919,7 +919,7 @@ impl StreamsState {
             forall|d: Dir, k: u64| k < old(self).next[di(d)] ==> resent(old(self).send, final(self).send, #[trigger] StreamId::spec_new(Side::Client, d, k)),
 //@ end
 //@ extract quinn-proto/src/connection/streams/state.rs :: impl StreamsState::fn set_params
-//@ props C05
+//@ props C05 C17
 //@ replace self.send.get_mut(&id).and_then(|s| s.as_mut()) => send_get(&mut self.send, id)
 //@ contract
         requires old(self).max_remote[0] <= 0x1000_0000_0000_0000
